@@ -1,7 +1,7 @@
 import MindsVerif.Model.Lex
 import MindsVerif.Model.LexTab
 import MindsVerif.Model.Denote
-import MindsVerif.Model.Render
+import MindsVerif.Model.LitRender
 import MindsVerif.Gen.Lex_sqlite
 import MindsVerif.Gen.Lex_mysql
 import MindsVerif.Gen.Lex_mindsdb
@@ -69,11 +69,11 @@ def handle (kw : Dialect → KwTable) (line : String) : String :=
     else if op == "var" then
       match lexVariable s with | none => "none" | some (sys, v, r) => s!"some {sys} {enc v} {enc r}"
     else if op == "varstr" then enc (variableToString (d == "sys") s)
-    else if op == "render" then enc (Render.renderLiteral s)
+    else if op == "render" then enc (LitRender.renderLiteral s)
     else if op == "stdlex" then
-      match Render.stdLex s with | none => "none" | some (v, r) => s!"some {enc v} {enc r}"
+      match LitRender.stdLex s with | none => "none" | some (v, r) => s!"some {enc v} {enc r}"
     else if op == "mysqllex" then
-      match Render.mysqlLex s with | none => "none" | some (v, r) => s!"some {enc v} {enc r}"
+      match LitRender.mysqlLex s with | none => "none" | some (v, r) => s!"some {enc v} {enc r}"
     else if op == "parts" then
       -- parts are separated by code point 0 inside the single argument
       let ps := (a.splitOn ",0,").map dec
